@@ -122,6 +122,8 @@ struct Thread {
     int64_t tb_max_ns, tb_latest_deadline;
     uint64_t cond_reacquire_step;
     bool forbid_block;
+    const void* forbid_obj;
+    const void* last_lock;
     const char* forbid_cls;
     uint32_t dec_count[D_NKINDS];
     int prio;
